@@ -181,6 +181,7 @@ class Interp:
         self.root = root
         self.depth = 0
         self.inline_depth = inline_depth
+        self.observers = {}                  # (qualname, local name) -> callback(interp, frame, value)
         self.dropped = {}                    # qualname -> count of dropped statements
         self.stats = {"calls_inlined": [], "contracts_applied": [], "lib_calls": set(), "loops_unrolled": 0,
                       "loops_by_invariant": 0}
@@ -623,6 +624,9 @@ class Interp:
     def assign(self, target, val, frame):
         if isinstance(target, ast.Name):
             frame.vars[target.id] = val
+            hook = self.observers.get((frame.func.qualname if frame.func else "", target.id))
+            if hook is not None:
+                hook(self, frame, val)      # intermediate assertion of a sidecar contract (may end the path)
             return
         if isinstance(target, (ast.Tuple, ast.List)):
             items = self.unpack(val, len(target.elts))
@@ -925,6 +929,8 @@ class Interp:
         for nm in sorted(names):
             if nm == "__yields__":
                 if frame.yields is not None:
+                    if spec is not None and "__yields__" in spec.elem:
+                        frame.yields.buf.elem = spec.elem["__yields__"]
                     frame.yields = self.havoc_value(frame.yields, "yields")
                 continue
             cur = frame.lookup(nm)
